@@ -52,7 +52,33 @@ def _text(prefix, names):
     return prefix + " " + " , ".join(f"${{{n}}}" for n in names) + " ."
 
 
+# NCNames with characters outside \\w: combining marks (Devanagari / Thai vowel signs and tone marks, a decomposed
+# accent), U+00B7, next to precomposed and CJK names — all legal XML names that pyxform accepts
+UNICODE_NAMES = {
+    "tq": "\u0928\u093e\u092e", "tg": "\u0e0a\u0e37\u0e48\u0e2d", "tr": "e\u0301cole", "cq": "a\u00b7b",
+    "k1": "pr\u00e9nom", "c1": "\u540d\u524d", "t1": "\u0915\u093f\u0924\u093e\u092c", "cg": "n\u0303g",
+    "k": "\u0e19\u0e49\u0e33", "cgq": "x\u0323y", "crq": "\u0627\u0633\u0652\u0645",
+}
+
+
+def rename_form(form, mapping):
+    """rename elements everywhere: name cells and every `${…}` / `${last-saved#…}` occurrence"""
+    def ref(m):
+        return "${%s%s}" % (m.group(1) or "", mapping.get(m.group(2), m.group(2)))
+
+    for row in form["survey"]:
+        for k in list(row):
+            v = row[k]
+            if k == "name":
+                row[k] = mapping.get(v, v)
+            elif isinstance(v, str) and k != "type":
+                row[k] = rc.REF_RE.sub(ref, v)
+    return form
+
+
 def layout_form(common, rchain, tchain, policy, target_first=True):
+    if policy == "unicode":
+        return rename_form(layout_form(common, rchain, tchain, "neutral", target_first), UNICODE_NAMES)
     kn, cn, tn = rc.names_for(policy, common, rchain, tchain)
     rows = []
 
@@ -155,7 +181,7 @@ def layout_form(common, rchain, tchain, policy, target_first=True):
 NAME_POOL = [
     "a", "b", "q1", "q2", "age", "r", "r2", "ra", "r2a", "rab", "abcde_r2", "fghij_ra", "g", "g1", "grp", "rep", "rep1",
     "t", "t1", "tt", "x", "xy", "xyz", "n0", "w", "v", "kid", "kids", "hh", "house", "z9", "y_", "lbl", "name_", "a_b",
-    "a-b", "a.b", "S", "Sa", "q", "qq", "r_cnt", "k", "k2", "m", "mm", "node", "item", "label_",
+    "a-b", "a.b", "S", "Sa", "\u0928\u093e\u092e", "\u0e0a\u0e37\u0e48\u0e2d", "e\u0301cole", "a\u00b7b", "pr\u00e9nom", "\u540d\u524d", "q", "qq", "r_cnt", "k", "k2", "m", "mm", "node", "item", "label_",
 ]
 
 
@@ -533,8 +559,31 @@ FLAG_SHAPES = [
 ]
 
 
+FIND_ATOMS = ["${", "}", "last-saved#", "a", "b1", "x.y", "\n", " ", "$", "{", "#", "${a}", "${last-saved#b}", "\u0928\u093e\u092e", "e\u0301", "+", "[", "]"]
+
+
+def corr_find(ctx, texts):
+    """`findRefs` / `refsClosed` of the model vs BRACKETED_TAG_REGEX of the implementation on the same strings"""
+    from pyxform.utils import BRACKETED_TAG_REGEX
+
+    res = ctx.driver.call("refs.find", texts=texts)
+    for t, m in zip(texts, res):
+        ctx.count("find:texts")
+        impl_refs = [[g.group(1) is not None, g.group(2)] for g in BRACKETED_TAG_REGEX.finditer(t)]
+        # every `${` of the text lies in the span of a match (it opens one, or was consumed by the lazy group)
+        spans = [(g.start(), g.end()) for g in BRACKETED_TAG_REGEX.finditer(t)]
+        impl_closed = all(any(a <= i < b for a, b in spans) for i in range(len(t)) if t.startswith("${", i))
+        if impl_refs != m["refs"]:
+            ctx.mismatch("BRACKETED_TAG_REGEX occurrences", {"text": t}, impl_refs, m["refs"])
+        elif impl_closed != m["closed"]:
+            ctx.mismatch("refsClosed", {"text": t}, impl_closed, m["closed"])
+
+
 def corr_whole(ctx, form, holes, survey):
     """every hole of the conversion against the model's `refFor` on the implementation's tree"""
+    srcs = sorted({h["src"] for h in holes})
+    if srcs:
+        corr_find(ctx, srcs)
     tree = survey_tree(survey)
     qs, hs = [], []
     for h in holes:
@@ -681,9 +730,14 @@ def bad_name_case(ctx, form, els):
         row[col] = row[col][: m.start(2)] + nm + row[col][m.end(2):]
     else:
         why, nm = "ambiguous", m.group(2)
-        # a second element of that name inside a fresh group at the end (siblings stay unique)
-        form["survey"] += [{"type": "begin group", "name": "zz_dupbox", "label": "D"}, {"type": "text", "name": nm, "label": "D"},
-                           {"type": "end group"}]
+        # 1..4 further elements of that name (2..5 occurrences in all), each in a group of its own so that siblings
+        # stay unique; before and/or after the tree
+        extra = rng.randint(1, 4)
+        ctx.count(f"badname:occurrences:{extra + 1}")
+        for i in range(extra):
+            box = [{"type": "begin group", "name": f"zz_dupbox{i}", "label": "D"}, {"type": "text", "name": nm, "label": "D"},
+                   {"type": "end group"}]
+            form["survey"] = box + form["survey"] if rng.random() < 0.3 else form["survey"] + box
     expect = {"error": nm, "why": why}
     r = impl.run(form)
     ctx.count(f"badname:{why}:impl:{r['class']}")
@@ -714,6 +768,37 @@ def explore(ctx, factor, bs):
             ctx.count(f"policy:{policy}")
             ctx.count(f"depth:{len(common) + max(len(rchain), len(tchain))}")
             form_case(ctx, form, direct=ctx.pick(20, 100) * factor)
+        if len(common) + max(len(rchain), len(tchain)) <= ctx.pick(2, 3):
+            n += 1
+            ctx.count("policy:unicode")
+            form_case(ctx, layout_form(common, rchain, tchain, "unicode", target_first=(n % 2 == 0)), direct=ctx.pick(10, 40) * factor)
+    # a name carried by k = 2..6 elements in different groups/repeats, and one reference to it per cell kind
+    for k in range(2, 7):
+        for col, val in (("calculation", "${site} + 1"), ("relevant", "${site} != ''"), ("label", "L ${site}"),
+                         ("default", "${last-saved#site}"), ("constraint", "instance('l')/root/item[name = ${site}]/label")):
+            rows = []
+            for i in range(k):
+                kind = "repeat" if i % 2 else "group"
+                rows += [{"type": f"begin {kind}", "name": f"visit{i}", "label": "V"}, {"type": "text", "name": "site", "label": "S"},
+                         {"type": f"end {kind}"}]
+            ref = {"type": "calculate" if col == "calculation" else "text", "name": "refq", "label": "R", col: val}
+            rows.insert(ctx.rng.randrange(len(rows) // 3 + 1) * 3, ref)
+            form = {"survey": rows, "choices": [{"list_name": "l", "name": "a", "label": "A"}]}
+            r = impl.run(form)
+            ctx.count(f"occurrences:{k}:impl:{r['class']}")
+            case = {"form": form}
+            expect = {"error": "site", "why": "ambiguous"}
+            if r["ok"]:
+                _fail(ctx, Failure("bad-name-accepted", f"${{site}} accepted although {k} elements are called site", case, extra={"expect": expect}))
+            elif r["class"] != "pyxform" or "'site'" not in r["msg"] or "multiple survey elements" not in r["msg"]:
+                _fail(ctx, Failure("bad-name-not-named", f"{k} elements called site: {r['msg'][:200]}", case, extra={"expect": expect}))
+            mres = ctx.driver.call("refs.model", tree=rows_tree(form), queries=[{"ctx": "/data/refq", "name": "site"}])[0]
+            if mres["out"] != "ambiguous":
+                ctx.mismatch("ambiguous name", case, "ambiguous", mres)
+            ctx.record(case, True)
+    # the reference regex on adversarial strings (unclosed braces, nested openers, newlines, last-saved prefixes)
+    texts = ["".join(ctx.rng.choice(FIND_ATOMS) for _ in range(ctx.rng.randint(1, 8))) for _ in range(ctx.pick(400, 5000) * factor)]
+    corr_find(ctx, texts)
     # random deeper trees, mixed expressions
     nrand = ctx.pick(300, 6000) * factor
     for i in range(nrand):
